@@ -81,6 +81,10 @@ CHECKS = {
    technique="stateful property-based testing / robustness fuzzing (rapid): generated configurations x generated API programs over a register file of URLs, recover() around every step, (nil, nil) contract, hang watchdog confirmed in a fresh process",
    text="A configuration (predefined profile, or 0..6 of 25 options with valued options from families incl. special-scheme maps without file, encoding overrides, generated encode sets, total host callbacks) and a program (initial parse with hostile / arbitrary / very long arguments, then up to 12 setter, resolve, clone, SearchParams, SetSearchParams, encode/decode and profile operations) are executed with all getters called after every step; any panic, (nil, nil) result or non-returning call is a violation.",
    ref="DESIGN.md §6 C02, §7.8", note="trusted base: recover()/watchdog harness in harness/props/c02.go and harness/core, rapid"),
+ "C14": dict(
+   technique="property-based testing (rapid) over generated concurrent programs on shared parsers / profiles / base URLs, executed under the Go race detector (-race), with a sequential-equivalence oracle and table-immutability fingerprints",
+   text="Generated programs of 2..8 goroutines released from one barrier run read-only operations (parse, resolve against shared bases with and without lazily created state, getters, Clone, encode, set derivation) on one shared parser or profile; the race detector's log must not grow, every result must equal the same call run alone on private copies, and all package-level tables must be unchanged.",
+   ref="DESIGN.md §6 C14, §8", note="trusted base: Go race detector (happens-before), the harness in harness/props/c14.go, rapid; interleavings are those the scheduler produced, not enumerated"),
 }
 
 NOT_YET = {}
